@@ -71,7 +71,19 @@ func (s *vfSticky) step(cls string, srcIP string, srcPort int, raw []byte) vfSte
 	}
 	outs := []vfM{}
 	for _, o := range res.Outs {
-		outs = append(outs, vfM{"kind": o.Kind, "addr": o.Addr, "ip": o.IP, "port": o.Port, "proto": o.Proto})
+		// the branch the proxy stamped on what it delivered: CSeq method + this branch is the client transaction
+		br := ""
+		for _, h := range vfAlpha(o.Raw).Hdrs {
+			if h.Cls == "via" && len(h.Ents) > 0 {
+				for _, p := range h.Ents[0].Params {
+					if p[0] == "branch" {
+						br = p[1]
+					}
+				}
+				break
+			}
+		}
+		outs = append(outs, vfM{"kind": o.Kind, "addr": o.Addr, "ip": o.IP, "port": o.Port, "proto": o.Proto, "branch": br})
 	}
 	expires := 0
 	substcls := ""
@@ -205,6 +217,13 @@ func (s *vfSticky) event(op vfStickyOp, d *vfDialog, rnd *rand.Rand, expires int
 		code := []int{200, 200, 180, 183}[rnd.Intn(4)]
 		if op.M == "reject" { // an INVITE of the established dialog is rejected: the dialog lives on
 			code = []int{488, 491, 603, 400, 500}[rnd.Intn(5)]
+		}
+		if strings.HasPrefix(op.M, "elsewhere") { // the backend answers from another socket of its address (not a registered backend address)
+			port += 11
+			code = 180
+			if op.M == "elsewhere-final" {
+				code = 200
+			}
 		}
 		d.cseq = 1
 		s.step(fmt.Sprintf("answer-%d", code), ip, port, s.response(d, code, "INVITE", d.vias, true, extra...))
@@ -396,6 +415,8 @@ func TestVfSticky(t *testing.T) {
 					s.event(vfStickyOp{Op: "answer"}, d, rnd, longExp())
 				case x == 6 && state[j] == 2 && d.vias != nil:
 					s.event(vfStickyOp{Op: "answer", M: "reject"}, d, rnd, 0)
+				case x == 7 && state[j] >= 1 && d.vias != nil && i%3 == 1:
+					s.event(vfStickyOp{Op: "answer", M: []string{"elsewhere-prov", "elsewhere-final"}[rnd.Intn(2)]}, d, rnd, 0)
 				default:
 					s.event(vfStickyOp{Op: "indialog", M: methods[rnd.Intn(len(methods))]}, d, rnd, 0)
 				}
